@@ -56,6 +56,11 @@ func guard(c *Ctx, sigPrefix string, cas interface{}, f func()) (ok bool) {
 	defer func() {
 		if r := recover(); r != nil {
 			site, stack := panicSite()
+			ok = false
+			if fmt.Sprint(r) == "horizon exceeded: operation does not terminate" {
+				c.Violate(sigPrefix+":livelock:"+site, fmt.Sprintf("%v (more than the horizon of calls on the underlying reader/cache inside one history)\n%s", r, stack), cas)
+				return
+			}
 			c.Violate(sigPrefix+":panic:"+site, fmt.Sprintf("panic: %v\n%s", r, stack), cas)
 			ok = false
 		}
